@@ -540,7 +540,7 @@ def run(ctx):
                 return None
 
             def on_exit(s2, fn, st, ret_nid, ret_cls, top):
-                if top and ret_cls == S.ZERO:
+                if top and ret_cls not in (S.NEG, S.POS, S.NONZERO):       # may answer 0 (also: the sub-socket's own result handed on)
                     nz[0] += 1
                     if not st.user and not bad8:
                         bad8.append(ret_nid)
